@@ -186,3 +186,12 @@ package callbacks
 //@   in callbacks.ConvertToCreateValues
 //@   min-sites 9
 //@   assert cell-is-current-reading-or-declared-default: (recordWritten == 0 && tagof(arg0) == lastReadTag && boxof(arg0) == lastReadBox) || (field.DefaultValueInterface != nil && arg0 == field.DefaultValueInterface) [C03]
+
+//@ # ---------- C10: Create from a map writes only columns that Select/Omit and the field permissions admit ----------
+//@ # SelectAndOmitColumns (under contract in package gorm) maps every create-denied field's column to false; the
+//@ # name stored in the VALUES column list must be the very key that was looked up in that map and admitted.
+//@ site create-map-column-admitted
+//@   match store Column.Name
+//@   in callbacks.ConvertMapToValuesForCreate
+//@   min-sites 1
+//@   assert stored-name-was-admitted: (has(selectColumns, arg0) && selectColumns[arg0]) || (!has(selectColumns, arg0) && !restricted) [C10]
